@@ -4,16 +4,18 @@ import random
 
 import vlib
 
-HEADER = "From Bingo Require Import Model.Selection."
+HEADER = "From Bingo Require Import Model.Selection Model.SelectionProb."
 INF = 10 ** 6
-# case = (kind, sel_size, pop [(id, age, fit)], target, tape [[nat]], close [bool])
+# case = (kind, sel_size, pop [(id, age, fit)], target, tape [[nat]], close [bool], picks [nat], coins [option bool])
 RUNNER = (
-    "(fun c : Z * nat * list (nat * Z * option Z) * nat * list (list nat) * list bool => "
-    "let '(k, sz, p, tg, tape, close) := c in "
+    "(fun c : Z * nat * list (nat * Z * option Z) * nat * list (list nat) * list bool * list nat * list (option bool) => "
+    "let '(k, sz, p, tg, tape, close, picks, coins) := c in "
     "let pop := map (fun t => let '(i, a, f) := t in mkInd i a f) p in "
     "if (k =? 0)%Z then enc_out (fun r => Z.of_nat (length (fst r)) :: enc_ids (fst r) ++ enc_ids (snd r)) (age_fitness sz pop tg tape) "
     "else if (k =? 1)%Z then enc_out (map Z.of_nat) (tournament sz pop tg tape) "
-    "else enc_out enc_ids (crowding pop tg close))")
+    "else if (k =? 2)%Z then enc_out enc_ids (crowding pop tg close) "
+    "else if (k =? 3)%Z then enc_out (map Z.of_nat) (ptournament sz pop tg (combine tape picks)) "
+    "else enc_out enc_ids (pcrowding pop tg close coins))")
 
 
 def gen_fit(rng, nan_p=0.2):
@@ -27,8 +29,31 @@ def gen_fit(rng, nan_p=0.2):
     return rng.randint(0, 3)
 
 
+def gen_prob_fit(rng, logscale):
+    """fitness for the probabilistic operators: NaN-heavy; in log scale anything (infinities included), otherwise
+    an evidence >= 0 (zero included) and now and then a negative one (outside the operator's domain: it may raise)"""
+    r = rng.random()
+    if r < 0.3:
+        return None
+    if logscale:
+        return INF if r < 0.34 else (-INF if r < 0.38 else rng.randint(-3, 3))
+    return rng.randint(-2, -1) if r < 0.33 else rng.randint(0, 3)
+
+
 def gen_case(rng):
-    kind = rng.choice([0, 0, 0, 1, 2])
+    kind = rng.choice([0, 0, 0, 0, 0, 0, 1, 1, 2, 2, 3, 4])
+    if kind == 3:
+        n, logscale = rng.randint(0, 8), rng.random() < 0.6
+        pop = [[i, 0, gen_prob_fit(rng, logscale)] for i in range(n)]
+        return dict(kind=3, sel=rng.randint(1, 5), pop=pop, target=rng.randint(0, 6), logscale=logscale,
+                    negative=rng.random() < 0.3)
+    if kind == 4:
+        h, logscale = rng.randint(0, 5), rng.random() < 0.6
+        n = 2 * h + (1 if rng.random() < 0.1 else 0)
+        pop = [[i, 0, gen_prob_fit(rng, logscale), rng.randint(0, 6)] for i in range(n)]
+        target = rng.choice([0, 2, 4, 6, 8, 1, 3]) if rng.random() < 0.5 else 2 * rng.randint(0, h)
+        return dict(kind=4, sel=0, pop=pop, target=target, logscale=logscale, negative=rng.random() < 0.3,
+                    npfloat=rng.random() < 0.5)
     if kind == 0 and rng.random() < 0.012:
         # a large population with a large comparison group (the samplers differ with the group size and could with the population's)
         n = rng.randint(105, 150)
@@ -66,13 +91,14 @@ def exhaustive_cases():
     return out
 
 
-def coq_case(c, tape, close):
+def coq_case(c, tape, close, picks=(), coins=()):
     def ind(t):
         return "(%d%%nat, %s, %s)" % (t[0], vlib.cz(t[1]), vlib.copt(t[2]))
     nat = lambda x: "%d%%nat" % x  # noqa
-    return "(%d, %s, %s, %s, %s, %s)" % (
+    return "(%d, %s, %s, %s, %s, %s, %s, %s)" % (
         c["kind"], nat(c["sel"]), vlib.clist(c["pop"], ind), nat(c["target"]),
-        vlib.clist(tape, lambda cell: vlib.clist(cell, nat)), vlib.clist(close, vlib.cbool))
+        vlib.clist(tape, lambda cell: vlib.clist(cell, nat)), vlib.clist(close, vlib.cbool),
+        vlib.clist(list(picks), nat), vlib.clist(list(coins), lambda b: vlib.copt(b, vlib.cbool)))
 
 
 # ------------------------------------------------------------------ implementation side
@@ -81,6 +107,10 @@ def impl_main(payload):
     from bingo.selection.age_fitness import AgeFitness
     from bingo.selection.tournament import Tournament
     from bingo.selection.deterministic_crowding import DeterministicCrowding
+    from bingo.selection.probabilistic_tournament import ProbabilisticTournament
+    from bingo.selection.probabilistic_crowding import ProbabilisticCrowding
+    import warnings
+    warnings.simplefilter("ignore")
 
     def fl(v):
         return float("nan") if v is None else (float("inf") if v == INF else (float("-inf") if v == -INF else float(v)))
@@ -128,7 +158,7 @@ def impl_main(payload):
     for ci, c in enumerate(payload["cases"]):
         del tape[:]
         np.random.seed((payload["seed"] + ci) % (2 ** 31))
-        viol, close = [], []
+        viol, close, picks, coins = [], [], [], []
         objs = {}
         pop = []
         for t in c["pop"]:
@@ -177,6 +207,74 @@ def impl_main(payload):
                     if (math.isnan(w.fitness) and nn) or any(x < w.fitness for x in nn):
                         viol.append("tournament winner (fitness %r) is not a least-fitness member of %r"
                                     % (w.fitness, [m.fitness for m in members]))
+            elif c["kind"] == 3:
+                real_ss = np.searchsorted
+
+                def rec_ss(a, v, *args, **kw):
+                    k = real_ss(a, v, *args, **kw)
+                    picks[-1] = int(k)
+                    return k
+
+                def rec_choice3(a, size=None, replace=True, p=None):
+                    picks.append(0)
+                    return rec_choice(a, size, replace=replace, p=p)
+                np.random.choice, np.searchsorted = rec_choice3, rec_ss
+                try:
+                    ret = ProbabilisticTournament(c["sel"], c["logscale"], c["negative"])(pop, c["target"])
+                finally:
+                    np.random.choice, np.searchsorted = real_choice, real_ss
+                out = [0] + [p.tag for p in ret]
+                if len(ret) != c["target"]:
+                    viol.append("probabilistic tournament returned %d, target %d" % (len(ret), c["target"]))
+                for w, cell in zip(ret, tape):
+                    members = [before[i] for i in cell]
+                    if any(w is b for b in before) or not w.is_copy:
+                        viol.append("probabilistic tournament winner is not a copy")
+                    if not any(m.tag == w.tag for m in members):
+                        viol.append("probabilistic tournament winner is not a member of its tournament")
+                    if len(set(cell)) != len(cell) or len(cell) != c["sel"]:
+                        viol.append("tournament sample is not %d distinct members: %r" % (c["sel"], cell))
+            elif c["kind"] == 4:
+                if c.get("npfloat"):
+                    for o in pop:
+                        o.fitness = np.float64(o.fitness)
+                h = len(pop) // 2
+                for i in range(c["target"] // 2):
+                    if 2 * i + 1 < h:
+                        p1, p2, c1, c2 = pop[2 * i], pop[2 * i + 1], pop[h + 2 * i], pop[h + 2 * i + 1]
+                        close.append(p1.distance(c1) + p2.distance(c2) <= p1.distance(c2) + p2.distance(c1))
+                orig_mf = ProbabilisticCrowding._return_most_fit
+
+                def rec_mf(self, child, parent):
+                    numeric = not (math.isnan(parent.fitness) or math.isnan(child.fitness))
+                    try:
+                        r = orig_mf(self, child, parent)
+                    except Exception:
+                        if numeric:
+                            coins.append(None)
+                        raise
+                    if numeric:
+                        coins.append(r is child)
+                    return r
+                ProbabilisticCrowding._return_most_fit = rec_mf
+                try:
+                    ret = ProbabilisticCrowding(c["logscale"], c["negative"])(pop, c["target"])
+                finally:
+                    ProbabilisticCrowding._return_most_fit = orig_mf
+                out = [0] + [p.tag for p in ret]
+                if len(ret) != c["target"]:
+                    viol.append("probabilistic crowding returned %d, target %d" % (len(ret), c["target"]))
+                if [id(x) for x in pop] != [id(x) for x in before]:
+                    viol.append("probabilistic crowding changed the caller's list")
+                for j, r in enumerate(ret):
+                    par = before[j]
+                    child = before[h + (j if close[j // 2] else (j ^ 1))]
+                    if r is not par and r is not child:
+                        viol.append("slot %d holds neither its parent nor its paired child" % j)
+                    elif math.isnan(par.fitness) and r is not child:
+                        viol.append("NaN parent of slot %d kept although it has a paired child" % j)
+                    elif not math.isnan(par.fitness) and math.isnan(child.fitness) and r is not par:
+                        viol.append("parent of slot %d (fitness %r) replaced by a NaN child" % (j, par.fitness))
             else:
                 h = len(pop) // 2
                 for i in range(c["target"] // 2):
@@ -198,18 +296,28 @@ def impl_main(payload):
                     elif not (math.isnan(par.fitness) or child.fitness < par.fitness):
                         viol.append("parent (fitness %r) replaced by a child that is not strictly better (%r)"
                                     % (par.fitness, child.fitness))
-        except (ValueError, IndexError) as e:
+        except (ValueError, IndexError, ZeroDivisionError) as e:
             out = [1]
             legit = isinstance(e, ValueError)
+            # the probabilistic operators without log scale read a fitness as an evidence >= 0: a negative weight
+            # (or, for crowding, two zero evidences) is outside their domain and the float arithmetic may raise
+            wts = [(-fl(t[2]) if c.get("negative") else fl(t[2])) for t in c["pop"] if t[2] is not None]
+            out_of_domain = c["kind"] in (3, 4) and not c.get("logscale") and any(w <= 0 for w in wts)
             if c["kind"] == 0:
                 legit = legit and c["target"] > len(before)
             elif c["kind"] == 1:
                 legit = legit and c["sel"] > len(before) and c["target"] > 0
+            elif c["kind"] == 3:
+                legit = (legit and c["sel"] > len(before) and c["target"] > 0) or (
+                    isinstance(e, IndexError) and out_of_domain and any(w < 0 for w in wts))
+            elif c["kind"] == 4:
+                legit = (legit and (len(before) % 2 or c["target"] % 2 or c["target"] > len(before) // 2)) or (
+                    isinstance(e, ZeroDivisionError) and out_of_domain)
             else:
                 legit = legit and (len(before) % 2 or c["target"] % 2 or c["target"] > len(before) // 2)
             if not legit:
                 viol.append("selection raised %r on a legal call" % (e,))
-        results.append(dict(out=out, viol=viol, tape=[list(t) for t in tape], close=close))
+        results.append(dict(out=out, viol=viol, tape=[list(t) for t in tape], close=close, picks=picks, coins=coins))
     AgeFitness._get_unique_rand_indices = orig_uri
     return dict(results=results)
 
@@ -225,26 +333,34 @@ def check(rep, proof):
         return
     results = res["results"]
     oracle_bad = [(i, r["viol"]) for i, r in enumerate(results) if r["viol"]]
-    pairs = [(coq_case(c, r["tape"], r["close"]), r["out"]) for c, r in zip(cases, results)]
+    pairs = [(coq_case(c, r["tape"], r["close"], r["picks"], r["coins"]), r["out"]) for c, r in zip(cases, results)]
     bad, log = vlib.coq_compare("c08", HEADER, RUNNER, pairs)
     rep.coverage.update(
         evaluations=len(cases),
         distinct_nontrivial=len({repr(c) for c in cases if len(c["pop"]) >= 3}),
         rule="age-fitness (sizes 0-14, selection sizes 2-7, all targets incl. 0 and > size, ties, duplicates, NaN, +-inf), "
-             "tournament (sizes 1-5, NaN-heavy), deterministic crowding (odd sizes/targets, NaN); each run's random draws are "
+             "tournament (sizes 1-5, NaN-heavy), deterministic crowding (odd sizes/targets, NaN), probabilistic tournament and "
+             "probabilistic crowding (log scale with +-inf, evidence scale with zeros and out-of-domain negatives, both "
+             "sign conventions, Python and numpy floats, NaN-heavy); each run's random draws are "
              "recorded and replayed through the Coq model; thorough adds all populations of <=4 over 5 (age,fitness) values x all "
              "targets x selection size 2,3; non-trivial = population of at least 3; distinct by case text",
         samples=[cases[len(exh)], cases[len(exh) + 1]],
         correspondence=dict(cases=len(cases), disagreements=len(bad), exhaustive_small_scope=len(exh)),
         oracle_violations=len(oracle_bad),
         distribution=dict(age_fitness=sum(c["kind"] == 0 for c in cases), tournament=sum(c["kind"] == 1 for c in cases),
-                          crowding=sum(c["kind"] == 2 for c in cases), raised=sum(r["out"] == [1] for r in results),
+                          crowding=sum(c["kind"] == 2 for c in cases),
+                          probabilistic_tournament=sum(c["kind"] == 3 for c in cases),
+                          probabilistic_crowding=sum(c["kind"] == 4 for c in cases),
+                          searchsorted_picks=sum(len(r["picks"]) for r in results),
+                          crowding_coins=sum(len(r["coins"]) for r in results), raised=sum(r["out"] == [1] for r in results),
                           tape_cells=sum(len(r["tape"]) for r in results)),
     )
     rep.assumptions += [
         "np.random.choice(list, k, replace=False) selects list[i] for the k distinct indices it draws (the harness records the indices)",
-        "fitness / age order embedding into Z; ProbabilisticTournament / ProbabilisticCrowding are covered by the oracle's "
-        "membership and count clauses only (their winner is an oracle draw)",
+        "fitness / age order embedding into Z; for ProbabilisticTournament / ProbabilisticCrowding the float arithmetic is an "
+        "oracle (the index np.searchsorted returned, whether _return_most_fit took the child when both were numbers): the "
+        "theorems speak of membership, pairing, number and the NaN rules only; without log scale a non-positive evidence is "
+        "outside the operators' domain and an IndexError / ZeroDivisionError there is not counted as a violation",
     ]
     if oracle_bad:
         i, v = oracle_bad[0]
